@@ -385,4 +385,26 @@ PROPS["C19"] = {
                   "sites, the rest of the inventory is covered by its reviewed classification and the fuzzing.",
 }
 
+PROPS["C01"] = {
+    "drivers": [dict(MAIN, timeout=3000)],
+    "rule": "product on the real proxy: 22-23 credential states (none, valid cookie, valid but wrong e-mail domain / group, tampered, truncated, "
+            "expired, signed with another secret, CSRF cookie under the session name, garbage, ticket for a deleted key, valid bearer, bearer "
+            "with other key / wrong audience / expired / alg none, valid basic, wrong password, unknown user, malformed Authorization, "
+            "valid cookie + bad bearer; a credential-less request right after an authenticated one) x 11 endpoints (protected paths, API "
+            "route, skip-auth path, auth-only with/without query constraints, userinfo, sign_in, robots, ping) x GET/POST/OPTIONS x trusted / "
+            "untrusted remote address x Accept JSON x 4 configuration variants (bypass rules, API routes, domain and group restrictions, "
+            "skip-provider-button, force-JSON) x both stores; outcome class and cookie clearing compared with the model; non-trivial = all "
+            "protected-endpoint cases",
+    "assumptions": ["what each credential loader yields is an input of the composition model (decided by the sub-models of C02/C04/C09 and, in "
+                    "the correspondence, by the construction of the case)", "gorilla/mux routing is modelled by the regenerated route table"],
+    "trusted_base": ["translator go/xlate/routes.go", "construction labels and the bypass / authorisation reference in the driver"],
+    "level_text": "c01_only_if (for every endpoint, configuration, credential situation and request: disclosure => bypass, or a session vouched for "
+                  "by a loader that also passes the authorisation rules and the auth-only constraints), c01_otherwise (no bypass, no vouched "
+                  "session => sign-in page, redirect to the provider or 401, nothing disclosed), c01_if, c01_unauthorised, and c01_routes (the "
+                  "regenerated route table registers every disclosing handler behind the session chain; each calls getAuthenticatedSession, "
+                  "which checks bypass, nil session, authorisation in that order) are proved on the Gallina model of the session chain, "
+                  "getAuthenticatedSession and the Proxy / AuthOnly / UserInfo handlers; compared with the real proxy on the product grid.",
+    "level_note": "credential validity itself is C02/C04/C09; bypass matching is C15; this property is their composition.",
+}
+
 NOT_APPLICABLE = {}
